@@ -235,6 +235,7 @@ def run(chk):
     out = json.load(open(ofile))
     if isinstance(out, dict):
         out = [out[str(i + 1)] for i in range(len(recs))]
+    chk.trace_lines += len(recs)        # one recorded observable per line of the cases file: TLC computed the preimage the specification prescribes for each
     checked = 0
     for (c, o, d), exp in zip(objs, out):
         typ = c["type"]
